@@ -1,6 +1,8 @@
 // Recorder for the algorithms and relations: C15 (interpolation), C16 (averages), C18 (tangent isApprox).
 // Build per group like rec_core.  Plan line: op key prop thc linc hemi dir thc2 linc2 jac reps
 #include "rec.h"
+#include <list>
+#include <deque>
 #include <manif/algorithms/interpolation.h>
 #include <manif/algorithms/average.h>
 #include <algorithm>
@@ -23,7 +25,7 @@ static void op_interp(Ctx& c) {
   G A = draw_element<G>(c.thc, c.linc, "any", "generic", c.r);
   G B = A.compose(draw_element<G>(c.thc2, c.linc2, "any", "generic", c.r));
   const std::string method = c.hemi, pk = c.dir;
-  double s = pk == "zero" ? 0.0 : pk == "one" ? 1.0 : pk == "dyadic" ? std::ldexp(1.0, -c.r.i(1, 6)) * c.r.i(1, 3) / 4.0 * 1.0 : pk == "below" ? -1e-9 : pk == "above" ? (double)std::nextafter((S)1, (S)2) : pk == "nan" ? std::nan("") : c.r.u(0.0, 1.0);
+  double s = pk == "zero" ? 0.0 : pk == "one" ? 1.0 : pk == "dyadic" ? std::ldexp(1.0, -c.r.i(1, 6)) * c.r.i(1, 3) / 4.0 * 1.0 : pk == "below" ? -1e-9 : pk == "above" ? (double)std::nextafter((S)1, (S)2) : pk == "nan" ? std::nan("") : pk == "near0" ? (sizeof(S) == 8 ? 1e-12 : 1e-6) * c.r.u(0.5, 1.0) : pk == "near1" ? 1.0 - (sizeof(S) == 8 ? 1e-12 : 1e-6) * c.r.u(0.5, 1.0) : c.r.u(0.0, 1.0);
   if (pk == "dyadic" && s > 1) s = 0.5;
   T ta = c.jac ? draw_tangent<G>("generic", "1", "generic", c.r) : T::Zero(), tb = c.jac ? draw_tangent<G>("mid_hi", "1", "generic", c.r) : T::Zero();
   G L = draw_element<G>("generic", "1", "any", "generic", c.r);
@@ -49,7 +51,7 @@ static void op_phi(Ctx& c) {
 template <class F> static void run_avg(Out& o, const char* key, F f, const std::vector<G>& pts) {
   try { G m = f(pts); o.vec(key, m.coeffs()); } catch (const std::exception&) { o.str(key, "raised"); }
 }
-static G call_avg(const std::string& routine, const std::vector<G>& pts) {
+template <class Cont> static G call_avg(const std::string& routine, const Cont& pts) {
   if (routine == "biinvariant") return manif::average_biinvariant(pts);
   if (routine == "average") return manif::average(pts);
   if (routine == "frechet_left") return manif::average_frechet_left(pts);
@@ -59,17 +61,20 @@ static void op_avg(Ctx& c) {
   // thc/linc: cell of the centre; hemi field: routine; dir field: cloud kind (n1,n2,n3,n10,n50,same,empty); radius <= 0.5
   const std::string routine = c.hemi, kind = c.dir;
   G C = draw_element<G>(c.thc, c.linc, "any", "generic", c.r);
-  int n = kind == "n1" ? 1 : kind == "n2" ? 2 : kind == "n3" ? 3 : kind == "n50" ? 50 : kind == "empty" ? 0 : kind == "same" ? 4 : 10;
+  int n = kind == "n1" ? 1 : kind == "n2" ? 2 : kind == "n3" ? 3 : kind == "n50" ? 50 : kind == "empty" ? 0 : kind == "same" ? 4 : kind == "out1" ? 6 : 10;
   std::vector<G> pts;
   for (int i = 0; i < n; ++i) {
     if (kind == "same") { pts.push_back(C); continue; }
-    T d; for (int j = 0; j < T::DoF; ++j) d.coeffs()(j) = (S)(c.r.u(-1, 1)); d.coeffs() *= (S)(c.r.u(0.05, 0.5) / std::max(1e-9, (double)d.coeffs().norm()));
+    T d; for (int j = 0; j < T::DoF; ++j) d.coeffs()(j) = (S)(c.r.u(-1, 1)); d.coeffs() *= (S)((kind == "out1" ? (i == 0 ? 0.5 : c.r.u(0.01, 0.05)) : c.r.u(0.05, 0.5)) / std::max(1e-9, (double)d.coeffs().norm()));   // out1: the first point (the initial guess) is the outlier
     pts.push_back(C.rplus(d));
   }
   HEAD("avg") o.str("routine", routine); o.str("kind", kind); o.num("n", n); put_list(o, "pts", pts);
   try {
     G m = call_avg(routine, pts);
     o.str("exc", "none"); o.vec("m", m.coeffs());
+    // the same points in other standard containers (same iteration order): the same result, bit for bit
+    { std::list<G> lst(pts.begin(), pts.end()); std::deque<G> dq(pts.begin(), pts.end());
+      o.vec("mlist", call_avg(routine, lst).coeffs()); o.vec("mdeque", call_avg(routine, dq).coeffs()); }
     std::vector<T> wit; for (auto& X : pts) wit.push_back(X.rminus(m)); put_list(o, "wit", wit);
     std::vector<G> perm = pts; std::reverse(perm.begin(), perm.end()); if (perm.size() > 2) std::swap(perm[0], perm[perm.size() / 2]);
     o.vec("mperm", call_avg(routine, perm).coeffs());
